@@ -85,3 +85,322 @@ def rle_tables(encn, decn):
     tab = dict(encn=encn, decn=decn, enc1=enc1, encp=encp, dec=dec, ind=ind, indv1=indv1)
     total = 2 * sum(len(ENC_ALPHA) ** n for n in range(encn + 1)) + sum(len(DEC_ALPHA) ** n for n in range(decn + 1))
     return tab, total, wellformed
+
+
+# ------------------------------------------------------------------------------------------------
+# running the real tools / reading files back
+# ------------------------------------------------------------------------------------------------
+FIELDS = ('a', 'f', 'bc', 'de', 'hl', 'a2', 'f2', 'bc2', 'de2', 'hl2', 'ix', 'iy', 'sp', 'pc', 'i', 'r',
+          'iff1', 'iff2', 'im', 'border', 't', 'o7ffd', 'offfd', 'ay', 'fe', 'memptr', 'issue2', 'machine')
+
+
+def quiet_main(mod, args):
+    """Run a skoolkit command's main() in-process; returns '' or a one-line error description."""
+    out, err = io.StringIO(), io.StringIO()
+    try:
+        with contextlib.redirect_stdout(out), contextlib.redirect_stderr(err):
+            mod.main(list(args))
+    except SystemExit as e:
+        return 'exit:%s:%s' % (e.code, err.getvalue().strip()[-200:])
+    except Exception as e:  # SkoolKitError and genuine crashes alike: the caller decides
+        return '%s:%s' % (type(e).__name__, str(e)[:200])
+    return ''
+
+
+def crc2(b):
+    c = zlib.crc32(bytes(b))
+    return [c >> 16, c & 0xFFFF]
+
+
+def firstdiff(a, b):
+    if a == b:
+        return -1
+    n = min(len(a), len(b))
+    for i in range(n):
+        if a[i] != b[i]:
+            return i
+    return n
+
+
+def ram_to_banks(ram):
+    """snapshot.ram(-1) -> {bank: bytes}"""
+    if ram is None:
+        return {}
+    if len(ram) == 0x20000:
+        return {b: bytes(ram[b * 0x4000:(b + 1) * 0x4000]) for b in range(8)}
+    if len(ram) == 0xC000:
+        return {5: bytes(ram[:0x4000]), 2: bytes(ram[0x4000:0x8000]), 0: bytes(ram[0x8000:])}
+    return {-1: bytes(ram)}
+
+
+def read_real(path):
+    """Project what skoolkit's own reader returns. -> (fields dict, {bank: bytes}, error string)"""
+    snapshot = _sk()
+    try:
+        s = snapshot.Snapshot.get(path)
+        ram = s.ram(-1)
+        f = dict(a=s.a, f=s.f, bc=s.bc, de=s.de, hl=s.hl, a2=s.a2, f2=s.f2, bc2=s.bc2, de2=s.de2, hl2=s.hl2,
+                 ix=s.ix, iy=s.iy, sp=s.sp, pc=s.pc, i=s.i, r=s.r, iff1=s.iff1, iff2=s.iff2, im=s.im,
+                 border=s.border, t=s.tstates, o7ffd=s.out7ffd, offfd=s.outfffd, ay=list(s.ay), fe=s.outfe,
+                 memptr=s.memptr, issue2=-1, machine=s.machine or '?')
+        return f, ram_to_banks(ram), ''
+    except Exception as e:
+        return None, {}, '%s:%s' % (type(e).__name__, str(e)[:200])
+
+
+def read_ind(path):
+    """Project what the independent decoder returns. -> (fields, banks, raw, error)"""
+    try:
+        s = snapfile.read_snapshot(path)
+    except (snapfile.FormatError, zlib.error, IndexError, ValueError, KeyError) as e:
+        return None, {}, None, '%s:%s' % (type(e).__name__, str(e)[:200])
+    f = {k: s[k] for k in ('a', 'f', 'bc', 'de', 'hl', 'a2', 'f2', 'bc2', 'de2', 'hl2', 'ix', 'iy', 'sp', 'pc', 'i', 'r',
+                           'iff1', 'iff2', 'im', 'border', 'o7ffd', 'offfd', 'issue2', 'machine')}
+    f['ay'] = list(s['ay'])
+    f['t'] = -1 if s['tstates'] is None else s['tstates']
+    f['fe'] = -1 if s['fe'] is None else s['fe']
+    f['memptr'] = -1 if s['memptr'] is None else s['memptr']
+    f['iff1'], f['iff2'] = s['iff1_raw'], s['iff2_raw']
+    return f, dict(s['banks']), s['raw'], ''
+
+
+NOFIELDS = dict(a=-1, f=-1, bc=-1, de=-1, hl=-1, a2=-1, f2=-1, bc2=-1, de2=-1, hl2=-1, ix=-1, iy=-1, sp=-1, pc=-1,
+                i=-1, r=-1, iff1=-1, iff2=-1, im=-1, border=-1, t=-1, o7ffd=-1, offfd=-1, ay=[-1] * 16, fe=-1,
+                memptr=-1, issue2=-1, machine='?')
+
+
+def raw_record(path, raw):
+    """The raw container pieces TLC decodes itself with SnapFields."""
+    if raw is None:
+        return dict(hdr=[], head=[], z80r=[], spcr=[], ay=[], keyb=[])
+    if path.endswith('.z80'):
+        return dict(hdr=list(raw['header']), head=[], z80r=[], spcr=[], ay=[], keyb=[])
+    ch = raw['chunks']
+    return dict(hdr=[], head=list(raw['header']), z80r=list(ch.get(b'Z80R', b'')), spcr=list(ch.get(b'SPCR', b'')),
+                ay=list(ch.get(b'AY\x00\x00', b'')), keyb=list(ch.get(b'KEYB', b'')))
+
+
+def observe(path, written):
+    """Read `path` with both decoders and compare the RAM with `written` ({bank: bytes}).
+    -> record for TLC (fields of both readers, raw header pieces, per-bank equality facts + digests)."""
+    rf, rb, rerr = read_real(path)
+    jf, jb, raw, jerr = read_ind(path)
+    rec = dict(fmt=path[-3:], rerr=rerr, ierr=jerr, real=rf or NOFIELDS, ind=jf or NOFIELDS)
+    rec.update(raw_record(path, raw))
+    banks = []
+    for b in sorted(written):
+        w = written[b]
+        r_, i_ = rb.get(b), jb.get(b)
+        banks.append(dict(bank=b, w=crc2(w),
+                          r=crc2(r_) if r_ is not None else [-1, -1], rdiff=firstdiff(w, r_) if r_ is not None else -2,
+                          i=crc2(i_) if i_ is not None else [-1, -1], idiff=firstdiff(w, i_) if i_ is not None else -2))
+    rec['banks'] = banks
+    rec['rextra'] = sorted(set(rb) - set(written))
+    rec['iextra'] = sorted(set(jb) - set(written))
+    return rec, raw
+
+
+def ram_arg(banks):
+    """{bank: bytes} -> the `ram` argument of write_snapshot (8 lists for 128K, flat 48K list otherwise)"""
+    if len(banks) == 8:
+        return [list(banks[b]) for b in range(8)]
+    return list(banks[5]) + list(banks[2]) + list(banks[0])
+
+
+# ------------------------------------------------------------------------------------------------
+# long run-length inputs (pattern B, RleLong.tla)
+# ------------------------------------------------------------------------------------------------
+RUN_LENS = (1, 2, 3, 4, 5, 254, 255, 256, 257, 258, 509, 510, 511, 512, 513)
+BANK = 0x4000
+
+
+def runs_bytes(runs):
+    return b''.join(bytes([b]) * n for b, n in runs)
+
+
+def norm_runs(runs):
+    out = []
+    for b, n in runs:
+        if n == 0:
+            continue
+        if out and out[-1][0] == b:
+            out[-1][1] += n
+        else:
+            out.append([b, n])
+    return out
+
+
+def fill(runs, size, filler):
+    """Pad a run list to `size` bytes with a filler run (not equal to the last byte)."""
+    used = sum(n for _, n in runs)
+    if used > size:
+        raise MachineryError('bank overflow: %d' % used)
+    if used < size:
+        f = filler
+        while runs and f in (runs[-1][0], 0xED):
+            f = (f + 1) % 256
+        runs = runs + [[f, size - used]]
+    return runs
+
+
+def seps_for(v, k):
+    """Separator byte strings placed between runs: plain byte, ED directly before/after the run, ED ED."""
+    o = (v + 1) % 256 if (v + 1) % 256 != 0xED else 0xEF
+    if v == 0xED:
+        return ([[o, 1]], [[0, 1]], [[o, 2]], [[1, 1], [o, 1]])[k % 4]
+    return ([[o, 1]], [[0xED, 1]], [[o, 1], [0xED, 1]], [[0xED, 1], [o, 1]], [[0xED, 2]], [[o, 1], [0xED, 3], [o, 1]])[k % 6]
+
+
+def long_bank_specs(rng, nrandom):
+    """-> list of (class key, runs) with sum of runs == 16384."""
+    specs = []
+    # A: runs of every byte value, lengths around 1..5, 254..258, 509..513, all separator contexts
+    cur, used, k, names = [], 0, 0, []
+    for v in range(256):
+        need = sum(RUN_LENS) + 4 * len(RUN_LENS)
+        if used + need > BANK - 8:
+            specs.append(('A:%s' % '-'.join(names), fill(cur, BANK, 0x77)))
+            cur, used, names = [], 0, []
+        names.append('%02X' % v)
+        order = list(RUN_LENS)
+        rng.shuffle(order)
+        for L in order:
+            sep = seps_for(v, k)
+            k += 1
+            cur += [[v, L]] + [list(x) for x in sep]
+            used += L + sum(n for _, n in sep)
+    specs.append(('A:%s' % '-'.join(names), fill(cur, BANK, 0x77)))
+    # B: runs of ED of every length 1..600
+    cur, used, first = [], 0, 1
+    seps = (0, 5, 255, 0xEC, 0xEE)
+    for L in range(1, 601):
+        if used + L + 1 > BANK - 8:
+            specs.append(('B:ED%d-%d' % (first, L - 1), fill(cur, BANK, 0x33)))
+            cur, used, first = [], 0, L
+        cur += [[0xED, L], [seps[L % 5], 1 + (L % 3 == 0) * 5]]
+        used += L + 1 + (L % 3 == 0) * 5
+    specs.append(('B:ED%d-600' % first, fill(cur, BANK, 0x33)))
+    # C: banks beginning / ENDING in 1..6 EDs, also directly after a run / a literal
+    for n in range(1, 7):
+        for pre in ([[0, 300]], [[1, 1], [2, 1], [3, 1]], [[0xED, 1], [9, 7]], [[4, 255]], [[4, 256]], [[0xED, 2], [8, 1]]):
+            head = [[0xED, n], [7, 3]]
+            tail = [list(x) for x in pre] + [[0xED, n]]
+            mid = BANK - sum(m for _, m in head) - sum(m for _, m in tail)
+            specs.append(('C:end%d' % n, head + [[0x55, mid]] + tail))
+    # whole bank one byte (64 tokens of 255 + one of 64), whole bank ED, alternating ED x
+    specs.append(('C:all00', [[0, BANK]]))
+    specs.append(('C:allED', [[0xED, BANK]]))
+    specs.append(('C:allFF', [[0xFF, BANK]]))
+    alt = []
+    for j in range(120):
+        alt += [[0xED, 1], [j % 7, 1 + (j % 11 == 0) * 6]]
+    specs.append(('C:altED', fill(alt, BANK, 0x21)))
+    # D: random structured banks, ED-rich
+    for j in range(nrandom):
+        runs = []
+        for _ in range(rng.randrange(20, 70)):
+            b = rng.choice((0xED, 0xED, 0, 1, 0xFF, 0xEC, 0xEE, rng.randrange(256)))
+            n = rng.choice((1, 1, 1, 2, 2, 3, 4, 5, 6, 7, rng.randrange(1, 40), 254, 255, 256, 257, 510, 511, 765, 766))
+            runs.append([b, n])
+        runs = norm_runs(runs)
+        specs.append(('D:rnd%d' % j, fill(runs, BANK, rng.randrange(256))))
+    out = []
+    for key, runs in specs:
+        runs = norm_runs(runs)
+        if sum(n for _, n in runs) != BANK:
+            raise MachineryError('bank spec %s has %d bytes' % (key, sum(n for _, n in runs)))
+        out.append((key, runs))
+    return out
+
+
+BLK_LIMIT = 2600     # longest block handed to TLC byte by byte
+
+
+def _block_case(key, form, runs, blen, chunk, page, wantpage, fact):
+    big = len(chunk) > BLK_LIMIT
+    return dict(key=key, form=form, runs=norm_runs(runs), total=sum(n for _, n in runs), lenfield=-1 if blen is None else blen,
+                page=page, wantpage=wantpage, big=1 if big else 0, blklen=len(chunk), blk=[] if big else list(chunk), **fact)
+
+
+def long_file_worker(job):
+    """job = (workdir, name, kind, machine, [(key, runs)...]) -> list of RleLong cases.
+    kind: 'ws' write_snapshot .z80 (v3) | 'v1' / 'v2' / 'raw' independent file passed through snapmod."""
+    wd, name, kind, machine, specs = job
+    snapshot = _sk()
+    from skoolkit import snapmod
+    nb = len(specs)
+    order = list(range(8)) if nb == 8 else [5, 2, 0]
+    written = {b: runs_bytes(specs[j][1]) for j, b in enumerate(order)}
+    path = os.path.join(wd, name + '.z80')
+    err = ''
+    if kind == 'ws':
+        snapshot.write_snapshot(path, ram_arg(written), ['pc=32768'], [], machine)
+    else:
+        src = os.path.join(wd, name + '-in.z80')
+        st = dict(a=1, f=2, bc=3, de=4, hl=5, a2=6, f2=7, bc2=8, de2=9, hl2=10, ix=11, iy=12, sp=13, pc=32768, i=14, r=15,
+                  iff1=1, iff2=1, im=1, border=3, issue2=0, tstates=100, machine=machine, o7ffd=0, offfd=0, ay=[0] * 16,
+                  banks=written)
+        ver = {'v1': 1, 'v2': 2, 'raw': 3, 'v1raw': 1}[kind]
+        with open(src, 'wb') as f:
+            f.write(snapfile.write_z80(st, ver, compress=kind in ('v1', 'v2')))
+        err = quiet_main(snapmod, [src, path])
+    cases = []
+    if err:
+        return [dict(key='%s:%s' % (kind, specs[0][0]), form='error', err=err, runs=[], total=0, lenfield=-1, page=-1, wantpage=-1,
+                     big=1, blklen=0, blk=[], req=0, rdiff=-2, ieq=0, idiff=-2, w=[0, 0], r=[-1, -1], i=[-1, -1], ver=0)]
+    rec, raw = observe(path, written)
+    facts = {x['bank']: x for x in rec['banks']}
+    if raw is None or rec['rerr'] or rec['ierr']:
+        return [dict(key='%s:%s' % (kind, specs[0][0]), form='error', err=(rec['rerr'] or rec['ierr']), runs=[], total=0, lenfield=-1,
+                     page=-1, wantpage=-1, big=1, blklen=0, blk=[], req=0, rdiff=-2, ieq=0, idiff=-2, w=[0, 0], r=[-1, -1],
+                     i=[-1, -1], ver=0)]
+    hdrlen = len(raw['header'])
+    if kind in ('v1', 'v1raw'):
+        blen, chunk = raw['blocks'].get(None, (None, b''))
+        runs = [r for _, rs in specs for r in rs]
+        fx = [facts[b] for b in order]
+        rd = next((k * BANK + x['rdiff'] for k, x in enumerate(fx) if x['rdiff'] != -1), -1)
+        jd = next((k * BANK + x['idiff'] for k, x in enumerate(fx) if x['idiff'] != -1), -1)
+        w = crc2(b''.join(written[b] for b in order))
+        fact = dict(req=int(rd == -1), rdiff=rd, ieq=int(jd == -1), idiff=jd, w=w, r=w if rd == -1 else [-1, -1],
+                    i=w if jd == -1 else [-1, -1], err='', ver=1 if hdrlen == 30 else 0)
+        cases.append(_block_case('%s:%s' % (kind, '+'.join(k for k, _ in specs)), 'v1', runs, blen, chunk, -1, -1, fact))
+        return cases
+    for j, b in enumerate(order):
+        blen, chunk = raw['blocks'].get(b, (None, b''))
+        x = facts[b]
+        fact = dict(req=int(x['rdiff'] == -1), rdiff=x['rdiff'], ieq=int(x['idiff'] == -1), idiff=x['idiff'], w=x['w'], r=x['r'], i=x['i'],
+                    err='', ver={30: 1, 55: 2, 86: 3, 87: 3}.get(hdrlen, 0))
+        wantpage = b + 3 if nb == 8 else {5: 8, 2: 4, 0: 5}[b]
+        # the page byte actually present in the file for this bank
+        cases.append(_block_case('%s:%s' % (kind, specs[j][0]), 'paged', specs[j][1], blen, chunk, wantpage, wantpage, fact))
+    return cases
+
+
+def long_jobs(wd, rng, nrandom):
+    specs = long_bank_specs(rng, nrandom)
+    jobs = []
+    n = 0
+    # every bank spec goes through a 128K v3 file written by write_snapshot ...
+    pad = list(specs)
+    while len(pad) % 8:
+        pad.append(('C:pad', [[len(pad) % 251, BANK]]))
+    for k in range(0, len(pad), 8):
+        jobs.append((wd, 'l%d' % n, 'ws', ('128K', '+2')[n % 2], pad[k:k + 8]))
+        n += 1
+    # ... and through the v1 whole-RAM form (independent v1 file -> snapmod -> real v1 writer), 3 banks per block
+    pad = list(specs)
+    while len(pad) % 3:
+        pad.append(('C:pad', [[len(pad) % 251, BANK]]))
+    for k in range(0, len(pad), 3):
+        jobs.append((wd, 'l%d' % n, ('v1', 'v1raw')[n % 2], '48K', pad[k:k + 3]))
+        n += 1
+    # a sample through 48K v3 (pages 8,4,5), v2 files and uncompressed (0xFFFF) input blocks
+    for k in range(0, len(specs) - 8, 24):
+        jobs.append((wd, 'l%d' % n, 'ws', '48K', specs[k:k + 3]))
+        n += 1
+        jobs.append((wd, 'l%d' % n, 'v2', '128K', specs[k:k + 8]))
+        n += 1
+        jobs.append((wd, 'l%d' % n, 'raw', ('48K', '128K')[n % 2], specs[k:k + 8] if n % 2 else specs[k:k + 3]))
+        n += 1
+    return jobs
